@@ -181,4 +181,12 @@ class CsrfProtection:
         existing_key = Token(
             jti=jti, token_type=TokenType.CSRF.value, expires=expires, revoked=False)
         db.session.add(existing_key)
+        db.session.flush()
+        # Two requests that carry the same token can both pass the re-use
+        # test above before either of them has stored its record. The flush
+        # takes the database write lock, so only one of them finds no other
+        # record of this token
+        if Token.count(jti=jti, token_type=TokenType.CSRF.value) > 1:
+            db.session.rollback()
+            raise CsrfFailureException("Re-use of csrf_token")
         db.session.commit()
